@@ -92,12 +92,23 @@ class Monotone(_DateHarness):
     name = 'C13.monotone'
     doc = 'serials increase strictly with time: t < u implies serial(t) < serial(u)'
     functions = ('utils.serialize_date',)
-    bounds = 'all pairs of date-times from 1900-01-01 to 9999-12-31: whole days exactly; with a time part for pairs at least 1 ms apart'
+    bounds = 'all pairs of date-times from 1900-01-01 to 9999-12-31: whole days exactly; with a time part for pairs at least 1 ms apart; ' \
+             'an instant at microsecond resolution 250..1000 us before a midnight (years 1900..2200) against that midnight'
 
     def cases(self, tier):
-        return [{'time': False}, {'time': True}]
+        return [{'time': False}, {'time': True}, {'time': 'us'}]
 
     def build(self, e, p):
+        if p['time'] == 'us':
+            # microsecond resolution in the last millisecond of a day against the next midnight (an instant that a
+            # conversion rounding to whole milliseconds would push into the next day); years 1900..2200, where the float
+            # error of the conversion is far below the 250 microseconds kept between the two instants
+            import datetime as _d
+            t = dates.fresh_datetime_ord(e, 't', _d.date(1900, 3, 1).toordinal(), _d.date(2200, 1, 1).toordinal(), with_time=False)
+            us = z3.Int('t_us')
+            e.bounded(us, dates.US_DAY - 1000, dates.US_DAY - 250)
+            t = dates.SymDateTime(t.ord, us)
+            return {'t': t, 'u': dates.SymDateTime(t.ord + 1, z3.IntVal(0))}
         return {'t': dates.fresh_datetime_ord(e, 't', with_time=p['time']), 'u': dates.fresh_datetime_ord(e, 'u', with_time=p['time'])}
 
     def run(self, env, inp, p):
@@ -146,15 +157,19 @@ class ThroughParse(_DateHarness):
     doc = 'through Parser.parse: date + n is the date n days later, date - date the days between, DATEVALUE / N / DAYS see the same serial'
     functions = ('operators.evaluate_arithmetic', 'operators.value_and_type', 'dateandtime.DATEVALUE', 'dateandtime.DAYS',
                  'information.N', 'utils.serialize_date', 'utils.parse_date')
-    bounds = 'whole-day dates 1900-03-01..9999-12-31 (month split), offsets n with the result inside that range'
+    bounds = 'whole-day dates 1900-03-01..9999-12-31 (month split), offsets n with the result inside that range; the dates also as ' \
+             'instances of a host subclass of datetime.datetime'
 
     def cases(self, tier):
         ms = self.months(tier) if tier == 'thorough' else (1, 2, 3, 12)
-        return [{'month': m} for m in ms]
+        # host = the dates are instances of a subclass of datetime.datetime (an application's own timestamp class)
+        return [{'month': m} for m in ms] + [{'month': m, 'host': 1} for m in ms[:2]]
 
     def build(self, e, p):
         t = dates.fresh_datetime(e, 't', month=p['month'])
         u = dates.fresh_datetime_ord(e, 'u')
+        if p.get('host'):
+            t, u = dates.as_host_stamp(t), dates.as_host_stamp(u)
         n = e.fresh_int('n', -3000000, 3000000)
         e.add(t.ord >= ORD_1900_03_01, u.ord >= ORD_1900_03_01)
         e.add(t.ord + n.z >= ORD_1900_03_01, t.ord + n.z <= dates.MAXORD)
